@@ -1,4 +1,5 @@
 #include "scen.h"
+#include "geom.h"
 
 #include <algorithm>
 #include <cmath>
@@ -41,7 +42,42 @@ double CvSpec::eval(TrajModel const &m, long step) const {
     double c = n1.dot(n2), s = n1.dot(r34) * r23.norm();
     return r2d * std::atan2(s, c);
   }
+  if (kind == "gyration" || kind == "rmsd" || kind == "eigenvector") {
+    std::vector<V3> p; for (int a : groups[0]) p.push_back(m.pos(a, step));
+    if (kind == "gyration") return radius_of_gyration(p);
+    if (ref.size() != p.size()) return 0;
+    if (kind == "rmsd") return min_rmsd(p, ref);
+    std::vector<V3> xs = superpose(p, ref), e = centred_vec();
+    double v = 0; for (size_t i = 0; i < p.size(); i++) v += (xs[i] - ref[i]).dot(e[i]);
+    return v;
+  }
   return 0;
+}
+
+std::vector<V3> CvSpec::centred_vec() const {
+  std::vector<V3> e = vec; if (e.empty()) return e;
+  V3 c = centroid(e); double n2 = 0;
+  for (auto &v : e) v = v - c;
+  if (difference && ref.size() == e.size()) {
+    // the documented construction: both sets centred, the vector set rotated onto the reference, difference taken,
+    // then scaled so that the projection of (x_vec - x_ref) is 1 (unless normalizeVector asks for |v| = 1)
+    V3 cr = centroid(ref); std::vector<V3> rc(ref.size());
+    for (size_t i = 0; i < ref.size(); i++) rc[i] = ref[i] - cr;
+    M3 R; optimal_rotation(e, rc, R);
+    for (size_t i = 0; i < e.size(); i++) e[i] = R.apply(e[i]) - rc[i];
+    for (auto const &v : e) n2 += v.dot(v);
+    if (n2 > 0) for (auto &v : e) v = v * (normalize ? 1.0 / std::sqrt(n2) : 1.0 / n2);
+    return e;
+  }
+  for (auto const &v : e) n2 += v.dot(v);
+  if (normalize && n2 > 0) for (auto &v : e) v = v * (1.0 / std::sqrt(n2));
+  return e;
+}
+
+static std::string v3_list(std::vector<V3> const &l) {
+  std::string s;
+  for (auto const &v : l) s += " (" + num(v.x) + ", " + num(v.y) + ", " + num(v.z) + ")";
+  return s;
 }
 
 static std::string group_block(std::string const &gname, std::vector<int> const &ids) {
@@ -63,6 +99,8 @@ std::string CvSpec::config() const {
     s += group_block("main", groups[0]) + group_block("ref", groups[1]);
   } else if (ngroups() == 1) {
     s += group_block("atoms", groups[0]);
+    if (!ref.empty()) s += "    refPositions" + v3_list(ref) + "\n";
+    if (!vec.empty()) s += "    vector" + v3_list(vec) + "\n" + (normalize ? "    normalizeVector on\n" : "") + (difference ? "    differenceVector on\n" : "");
   } else {
     for (size_t g = 0; g < groups.size(); g++) s += group_block("group" + std::to_string(g + 1), groups[g]);
   }
@@ -120,7 +158,7 @@ void place_grid(CvSpec &cv, TrajModel const &m, long T, Rng &r, int nbins, doubl
   double centre = 0.5 * (lo + hi) + r.uniform(-0.15, 0.15) * range * (cover < 1 ? 1.0 : 0.3);
   double lower = centre - 0.5 * w * nbins;
   lower = std::floor(lower / w) * w;
-  if ((cv.kind == "distance" || cv.kind == "distanceXY" || cv.kind == "angle") && lower < 0) lower = 0;
+  if ((cv.kind == "distance" || cv.kind == "distanceXY" || cv.kind == "angle" || cv.kind == "gyration" || cv.kind == "rmsd") && lower < 0) lower = 0;
   cv.width = w; cv.lower = lower; cv.upper = lower + w * nbins; cv.has_bounds = true;
   if (cv.kind == "angle" && cv.upper > 180.0) { cv.upper = 180.0; cv.lower = 180.0 - w * nbins; if (cv.lower < 0) { cv.lower = 0; cv.width = 180.0 / nbins; } }
 }
